@@ -336,3 +336,42 @@ def run(repo, rep, tier):
                     if not oke:
                         rep.finding("R2.4", fill, fill.node, f"{cname}.fill: `entries` after a fill with positive weight is {ge!r}",
                                     stmt=f"entries: {state}/{qlabel}")
+
+    # ---------------- R2.5 Bag: every numeric key (component) is NaN-normalised before it indexes the value-to-weight map
+    r5 = rep.rule("R2.5", "Bag._update: numeric key components pass through the NaN-normalising converter (NaN is not equal to itself as a dict key)", floor=2)
+    bag = repo.cls("Bag")
+    upd = repo.lookup(bag, "_update")
+    if upd is None:
+        raise AnalysisError("Bag._update not found")
+    rep.analysed_functions.add(upd.construct)
+    um = repo.modules.get("histogrammar.util")
+    normalisers = set()
+    for fn in (um.functions.values() if um else []):
+        has_isnan = any(isinstance(x, ast.Call) and ast.unparse(x.func) in ("math.isnan", "np.isnan", "numpy.isnan") for x in ast.walk(fn.node))
+        ret_nan = any(isinstance(x, ast.Return) and isinstance(x.value, ast.Constant) and x.value.value == "nan" for x in ast.walk(fn.node))
+        if has_isnan and ret_nan:
+            normalisers.add(fn.name)
+    if not normalisers:
+        raise AnalysisError("no NaN-normalising converter found in histogrammar.util (floatOrNan expected)")
+    keyvar = upd.params[1]
+    for n in walk_local_stmt(upd.node):
+        if isinstance(n, ast.Assign) and len(n.targets) == 1 and isinstance(n.targets[0], ast.Name) and n.targets[0].id == keyvar:
+            raw = []
+
+            def scan(e, inside_norm):
+                if isinstance(e, ast.Call) and isinstance(e.func, ast.Name):
+                    if e.func.id in normalisers:
+                        inside_norm = True
+                    elif e.func.id in ("float", "int") and not inside_norm:
+                        raw.append(e)
+                for ch in ast.iter_child_nodes(e):
+                    scan(ch, inside_norm)
+            scan(n.value, False)
+            uses = any(isinstance(x, ast.Name) and x.id in normalisers for x in ast.walk(n.value))
+            ok = not raw and uses
+            r5.ob(ok, f"Bag._update: `{norm(n)[:70]}`")
+            if not ok:
+                rep.finding("R2.5", upd, n, f"`{norm(n)[:80]}` builds the key of the value-to-weight map without {sorted(normalisers)}: a NaN (component) "
+                            f"becomes a float NaN key, which is not equal to itself - every fill of the same NaN-containing value creates a new "
+                            f"entry instead of adding its weight to the existing one (and the JSON round trip drops duplicates)",
+                            stmt=f"bag key without NaN normalisation: {norm(n)[:50]}")
